@@ -39,8 +39,8 @@ ATOMS_Q = [("p", "a"), ("q", "a", "b"), ("q", "a", "a"), ("r",)]
 ATOMS_T = ATOMS_Q + [("p", "b")]
 FL_Q = [("f",), ("h", "a", "a")]
 FL_T = FL_Q + [("g", "a")]
-VALUES = [None, Fraction(0), Fraction(3, 2), Fraction(-2)]
-RULE = ("universe: quick 4 atoms x 2 fluents (each absent / 0 / 1.5 / -2) = 256 states, thorough 5 atoms x 3 fluents = 2048; "
+VALUES = [None, Fraction(0), Fraction(3, 2), Fraction(-2), Fraction("0.0000123456")]
+RULE = ("universe: quick 4 atoms x 2 fluents (each absent / 0 / 1.5 / -2 / 0.0000123456) = 400 states, thorough 5 atoms x 3 fluents = 4000; "
         "routes: problem parser (2 init orders), TrajectoryParser.parse_state, copy, copy of copy, successor by one action "
         "from a neighbouring state (add-fact or numeric update; delete-fact, which can leave an empty fact group); every ordered pair of states x every pair of routes "
         "compared with ==; every route object serialized and re-read; every copy mutated both ways. one case = one "
@@ -83,6 +83,10 @@ def ptext(st: RefState, reverse=False):
     return f"(define (problem p) (:domain v14) (:objects {OBJS}) (:init {' '.join(items)}) (:goal (and)))"
 
 
+def _dyadic(v: Fraction) -> bool:
+    return v.denominator & (v.denominator - 1) == 0
+
+
 def build(st: RefState):
     """route name -> library State (or Raised)"""
     from pddl_plus_parser.multi_agent.common import create_initial_state
@@ -111,8 +115,9 @@ def build(st: RefState):
         call = {"p": "add-p", "q": "add-q", "r": "add-r"}[a[0]]
         pr = parse_problem(ptext(nb), D())
         succ = guard(lambda: operator(D(), call, list(a[1:]), pr.objects).apply(create_initial_state(pr)))
-    elif st.fluents:
-        k = sorted(st.fluents)[0]
+    elif any(_dyadic(v) for v in st.fluents.values()):
+        # (a numeric successor of a non-dyadic value carries float noise and is a genuinely different state)
+        k = sorted(k_ for k_, v in st.fluents.items() if _dyadic(v))[0]
         delta = {"f": Fraction(1), "g": Fraction(-1, 2), "h": Fraction(2)}[k[0]]
         nb = RefState(st.atoms, {**st.fluents, k: st.fluents[k] + delta})
         call = {"f": "set-f", "g": "set-g", "h": "set-h"}[k[0]]
@@ -182,6 +187,29 @@ def check_case(case):
             r.fail("copy-independence", f"{direction}: after mutating one side, the other reads {show(after)} instead of "
                    f"{s1.to_json()}", s1.to_json(), show(after), tags=[direction])
             return r
+    # a copy of a state that holds an EMPTY fact group (reached by deleting the last fact of a predicate): adding a
+    # fact to the copy must not add it to the original, and vice versa
+    src = left.get("successor-by-delete")
+    if src is not None and not isinstance(src, Raised):
+        from pddl_plus_parser.models import GroundedPredicate
+        for direction in ("add-to-copy", "add-to-original"):
+            base = build(s1)["successor-by-delete"]
+            cp = base.copy()
+            victim, witness = (cp, base) if direction == "add-to-copy" else (base, cp)
+
+            def add_facts():
+                for key, group in list(victim.state_predicates.items()):
+                    name = sexp.read(key)[0]
+                    lifted = D().predicates[name]
+                    args = ["b"] * len(lifted.signature)
+                    group.add(GroundedPredicate(name, lifted.signature, dict(zip(lifted.signature, args))))
+            guard(add_facts)
+            after = guard(observe_state, witness)
+            r.count("transitions")
+            if isinstance(after, Raised) or not same_state(after, s1):
+                r.fail("copy-independence", f"{direction} on a state with an empty fact group: the other side reads "
+                       f"{show(after)} instead of {s1.to_json()}", s1.to_json(), show(after), tags=[direction, "empty-group"])
+                return r
     # all ordered pairs (s1, s2) x all route pairs
     for s2, right in allr:
         want = s1 == s2
